@@ -538,6 +538,6 @@ var C13 = &sim.Scenario{
 	},
 	RunFn: runC13,
 	Extra: func(th bool, counts map[string]int64) map[string]interface{} {
-		return map[string]interface{}{"race_detector_enabled": raceEnabled, "gomaxprocs": runtime.GOMAXPROCS(0)}
+		return map[string]interface{}{"race_detector_enabled": raceEnabled, "gomaxprocs": runtime.GOMAXPROCS(0), "numcpu": runtime.NumCPU()}
 	},
 }
